@@ -239,6 +239,10 @@ def build(tier, mutate=None):
             ms = core[nm]
             units.append(Unit("event-stream/%s/cuts=2 (unit of C07)" % nm, c07.seg_unit(C7, ms, 2), c07.seg_unit(c07.real_conn, ms, 2), split=True,
                               bounds={"stream_bytes": len(c07.render(ms)[0]), "cuts": "2, all positions (symbolic)"}, regions=["interior-cut"]))
+        # ... and, on a secure session, inside encrypted frames whose reads end anywhere (unit of C05)
+        from . import c05
+        units.append(Unit("event-stream/secure-frames/F=2,R=2 (unit of C05)", c05.inbound(c05.copies(mutate), 2, 2, None), c05.inbound(c05.real_conn, 2, 2, None), split=True,
+                          bounds={"frames": 2, "reads": 2, "cuts": "all positions (symbolic)"}, regions=["interior-cut"]))
     return units
 
 
